@@ -22,7 +22,7 @@ log={}
 cur=None
 if os.path.exists('/tmp/seeds_check.log'):
     for l in open('/tmp/seeds_check.log'):
-        m=re.match(r'(C\d\d-[AB])/patch.diff: fired=\[(.*)\]',l)
+        m=re.match(r'(C\d\d-[A-Z])/patch.diff: fired=\[(.*)\]',l)
         if m: cur=m.group(1); log[cur]={'fired':m.group(2).split(),'lines':[]}
         elif cur and l.startswith('    ['): log[cur]['lines'].append(l.strip())
 for d in sorted(glob.glob(V+'/seeded/C*')):
